@@ -192,7 +192,11 @@ class RefSimulation(object):
                 out[name][k] = loc[self._pyname[name]]
 
         n_t = len(times)
+        n_seg = 0
         while True:
+            n_seg += 1
+            if n_seg > 100000:
+                raise myokit.SimulationError('simshim: more than 100000 pacing segments')
             pace = 0.0
             tnext = tend
             if ps is not None:
@@ -234,6 +238,8 @@ class RefSimulation(object):
         for n in log:
             self._model.get(n)
         times = np.array(log_times, dtype=float)
+        if not np.isfinite(float(duration)) or float(duration) < 0 or not np.all(np.isfinite(times)):
+            raise ValueError('simshim: duration and log_times must be finite (myokit rejects them too)')
         if len(times) and (np.any(np.diff(times) < 0)):
             raise ValueError('simshim: log_times must be non-decreasing')
         t0 = self._t
